@@ -56,7 +56,8 @@ def ConfigurationFileToJson(filename):
 
     '''Reads dosini format configuration file and returns it as json string'''
 
-    cfg = configparser.ConfigParser()
+    # VV: the values are literal text (e.g. file names), '%' has no special meaning in them
+    cfg = configparser.ConfigParser(interpolation=None)
     cfg.read([filename])
     return ConfigurationToJson(cfg)
 
